@@ -214,7 +214,12 @@ def _followup(sc, work, proj, tmpdir, kind):
     project included, same absolute paths - optionally apply a developer edit, then run a fault-free edit. The same sources and lock are
     also materialised in a clean world and edited there. Returns both outcomes for a differential oracle."""
     src_dir = os.path.join(proj, "src")
-    cur = cli.read_tree(src_dir)
+    # the developer's files are the scenario's; whatever else the first run left in the source directory (a scratch copy beside a source
+    # file) is a leftover: it stays where it is, as it is, and does not exist in the clean world
+    own = set(sc.source_bytes())
+    everything = cli.read_tree(src_dir)
+    cur = {rel: c for rel, c in everything.items() if rel in own}
+    left_in_src = sorted(rel for rel in everything if rel not in own)
     if kind == "shorten":
         for rel, c in cur.items():
             n = shorten(c)
@@ -224,7 +229,8 @@ def _followup(sc, work, proj, tmpdir, kind):
                 cur[rel] = n
     lock_path = os.path.join(proj, "Breadlog.lock")
     lock_bytes = open(lock_path, "rb").read() if os.path.isfile(lock_path) else None
-    leftovers = {"tmp": sorted(os.listdir(tmpdir)), "proj": sorted(f for f in os.listdir(proj) if f not in ("src", "Breadlog.yaml", "Breadlog.lock"))}
+    leftovers = {"tmp": sorted(os.listdir(tmpdir)), "proj": sorted(f for f in os.listdir(proj) if f not in ("src", "Breadlog.yaml", "Breadlog.lock")),
+                 "src": left_in_src}
     cwd = os.path.join(work, "cwd")
     rp = cli.run_breadlog(os.path.join(proj, "Breadlog.yaml"), check=False, cwd=cwd, tmpdir=tmpdir, timeout=30)
     p_src = cli.read_tree(src_dir)
